@@ -164,6 +164,11 @@ impl Executor<'_> {
         }
         let mut session = CompilerSession::default();
         let mut held = crate::observe::Held::new();
+        // reach probes
+        let mut evicted_since_materialise = false;
+        let mut last_answers: BTreeMap<(usize, String), u64> = BTreeMap::new();
+        let mut companion_seen_absent: std::collections::BTreeSet<usize> = std::collections::BTreeSet::new();
+        let mut held_version: BTreeMap<usize, u64> = BTreeMap::new();
         let mut fresh: Option<Fresh> = None;
         let mut record = Record { events: Vec::new(), violations: Vec::new(), stats: Stats::default() };
         let check_c15 = self.focus != "C09";
@@ -200,6 +205,45 @@ impl Executor<'_> {
                     };
                     model.after_query();
                     Stats::bump(&mut record.stats.answer_kinds, &format!("{}:{}", query.label(), answer_kind(&answer_s)));
+                    // ---- reach probes
+                    if evicted_since_materialise
+                        && matches!(
+                            query,
+                            Query::Execute | Query::MaterializeArena | Query::CheckedProgram | Query::Facts | Query::ExecuteHeld
+                                | Query::MaterializeArenaHeld | Query::CheckedProgramHeld
+                        )
+                    {
+                        Stats::bump(&mut record.stats.probes, "memo_evicted_then_rematerialised");
+                        evicted_since_materialise = false;
+                    }
+                    let answer_hash = zysim_common::fnv1a(answer_s.as_bytes());
+                    if let Some(previous) = last_answers.insert((*root, query.label().to_string()), answer_hash) {
+                        if previous != answer_hash {
+                            Stats::bump(&mut record.stats.probes, "answer_changed_after_edits");
+                        } else {
+                            Stats::bump(&mut record.stats.probes, "answer_unchanged_since_last_asked");
+                        }
+                    }
+                    if let Some(companion) = model.companion_of(*root) {
+                        if matches!(model.effective(companion), crate::world::Effective::Absent) {
+                            companion_seen_absent.insert(companion);
+                        }
+                    }
+                    if matches!(query, Query::ExecuteHeld | Query::MaterializeArenaHeld | Query::CheckedProgramHeld) {
+                        match held_version.get(root) {
+                            | Some(version) if *version != model.version => {
+                                Stats::bump(&mut record.stats.probes, "handle_query_with_stale_handle")
+                            }
+                            | Some(_) => Stats::bump(&mut record.stats.probes, "handle_query_with_current_handle"),
+                            | None => {}
+                        }
+                    }
+                    if step % 3 == 0 && !through_snapshot && answer_s.starts_with(|c: char| c != 'P') {
+                        held_version.entry(*root).or_insert(model.version);
+                        if matches!(query, Query::Analyze | Query::Graph | Query::Reports | Query::Coverage | Query::Facts) {
+                            held_version.insert(*root, model.version);
+                        }
+                    }
                     // the fresh-session oracle on the mirror world
                     if fresh.as_ref().map(|f| f.version) != Some(model.version) {
                         drop(fresh.take());
@@ -332,6 +376,7 @@ impl Executor<'_> {
                     record.events.push(event);
                 }
                 | Op::Evict => {
+                    evicted_since_materialise = true;
                     salsa::Database::trigger_lru_eviction(&mut session);
                     record.events.push(json!({"step": step, "op": op.to_json()}));
                 }
@@ -373,6 +418,15 @@ impl Executor<'_> {
                         }
                     }));
                     // 3. the model
+                    if companion_seen_absent.contains(&slot)
+                        && matches!(mutating, Op::SetOverlay { .. } | Op::WriteRefresh { .. })
+                    {
+                        Stats::bump(&mut record.stats.probes, "companion_appeared_after_being_probed_absent");
+                        companion_seen_absent.remove(&slot);
+                    }
+                    if matches!(mutating, Op::ClearOverlay { .. }) && model.slots[slot].overlay.is_some() {
+                        Stats::bump(&mut record.stats.probes, "overlay_reverted_to_disk");
+                    }
                     let status_before = model.slots[slot].status.clone();
                     let expect = apply_to_model(&mut model, mutating);
                     if !matches!(mutating, Op::SilentWrite { .. } | Op::SilentDelete { .. }) {
